@@ -68,6 +68,12 @@ def _compute_getitem_size(
 
         # Handle tensor index - this one is complicated
         elif torch.is_tensor(idx):
+            if settings.debug.on() and idx.numel():
+                if idx.max() >= size or idx.min() < -size:
+                    raise IndexError(
+                        "index element {} is invalid: tensor index out of range for obj of size {}.".format(i, obj.shape)
+                    )
+
             if tensor_idx_shape is None:
                 tensor_idx_shape = idx.shape
                 tensor_idx = len(final_shape)
